@@ -18,6 +18,7 @@
 -/
 import MajoranaVerif.Driver.Util
 import MajoranaVerif.Model.Msi
+import MajoranaVerif.Model.L3
 open Model.Msi
 
 namespace Driver.C06
@@ -292,6 +293,8 @@ structure DState where
   excused : List (Nat × Nat) := []
   /-- flushes of a busy controller replayed so far in this run -/
   busyFlush : Nat := 0
+  /-- MVP-8: the verdict of `Model.L3.cleanSnapB` on the last `l3=` / `l3d=` sections seen in this run -/
+  l3Last : String := "ok"
   deriving Inhabited
 
 instance : Inhabited Tab := ⟨{}⟩
@@ -356,6 +359,54 @@ def handleSnapshot (d : DState) (secs : List String) : DState × String :=
     | none => accept p2
     | some _ => ({ d with refOn := false }, verdict ++ " ref=fail:" ++ why)
 
+/-! ### MVP-8: `Model.L3.cleanB` on the exported L3 (work package L3) -/
+
+def hexNibble (c : Char) : Nat :=
+  if '0' ≤ c ∧ c ≤ '9' then c.toNat - '0'.toNat
+  else if 'a' ≤ c ∧ c ≤ 'f' then c.toNat - 'a'.toNat + 10
+  else 0
+
+def hexBytes : List Char → List (BitVec 8)
+  | a :: b :: rest => BitVec.ofNat 8 (hexNibble a * 16 + hexNibble b) :: hexBytes rest
+  | _ => []
+
+/-- the bytes a zero-run compressed hex string stands for -/
+def decodeData (s : String) : List (BitVec 8) :=
+  (s.splitOn ".").flatMap fun t =>
+    if t.startsWith "z" then List.replicate (natOf' (t.drop 1).toString) 0#8 else hexBytes t.toList
+
+/-- `ok` | `stale` (a line that is not flagged differs from memory) | `keys` (a flag on an unaligned address or on no
+exported line): `Model.L3.cleanSnapB` (= `Model.L3.cleanB` of the state, `Proofs.L3.cleanSnapB_snapshotOf`) on the sections
+`l3=base:size:flag:data:mem+…` and `l3d=addr+…` -/
+def l3Verdict (memSize : Int) (l3s l3d : String) : String :=
+  let obs : List Model.L3.LineObs := (plusList l3s).filterMap fun t =>
+    match t.splitOn ":" with
+    | [b, sz, fl, dat, m] =>
+      let data := decodeData dat
+      let base := intOf b
+      let inside := (min (Int.ofNat data.length) (memSize - base)).toNat
+      let ms := if m == "~" then data.take inside else decodeData m
+      some ({ lo := base, hi := base + intOf sz, data := data }, fl == "d", ms)
+    | _ => none
+  let dirty := (plusList l3d).map intOf
+  if !(Model.L3.cleanSnapLinesB obs) then "stale"
+  else if !(Model.L3.cleanSnapKeysB Model.L3.mvp8Config obs dirty) then "keys"
+  else "ok"
+
+/-- the `l3clean=` suffix of the answer to an S line (empty when the variant has no L3); `l3=^` repeats the previous sections -/
+def l3Suffix (d : DState) (secs : List String) : DState × String :=
+  let kv : List (String × String) := secs.filterMap fun s =>
+    let s := s.trimAscii.toString
+    match s.splitOn "=" with
+    | k :: v :: _ => some (k, v)
+    | _ => none
+  match kv.lookup "l3" with
+  | none => (d, "")
+  | some "^" => (d, " l3clean=" ++ d.l3Last)
+  | some l3s =>
+    let v := l3Verdict d.memSize l3s ((kv.lookup "l3d").getD "")
+    ({ d with l3Last := v }, " l3clean=" ++ v)
+
 def handle (d : DState) (line : String) : DState × String :=
   let secs := line.splitOn " ; "
   let head := words (secs.headD "")
@@ -367,7 +418,10 @@ def handle (d : DState) (line : String) : DState × String :=
     let lsz := natOf' ((getKV kv "lsz").getD "64")
     let l1n := natOf' ((getKV kv "l1n").getD "16")
     ({ lineSize := Int.ofNat lsz, memSize := Int.ofNat (natOf' ((getKV kv "mem").getD "0")), tab := Tab.new n lsz l1n, refOn := true, first := true }, "run")
-  | ["S", _, _] => handleSnapshot d (secs.drop 1)
+  | ["S", _, _] =>
+    let (d1, ans) := handleSnapshot d (secs.drop 1)
+    let (d2, suf) := l3Suffix d1 (secs.drop 1)
+    (d2, ans ++ suf)
   | ["P", _, _] =>
     let o := parseObs (secs.drop 1)
     let s := o.snapshot d.lineSize
